@@ -329,6 +329,19 @@ def bfs(dt, depth, warm=False):
     return res
 
 
+def burst(n, delayed):
+    """size ladder: n events sent to one agent in one step (plain, or delayed by one dt): all of them handled in the step they are due,
+    by that agent, once, in the order sent"""
+    system = get_system(1)
+    m, ref = system.new()
+    for _ in range(n):
+        system._send(m, ref, 0, 1.0 if delayed else None)
+    v = system._step(m, ref)
+    if not v and delayed:
+        v = system._step(m, ref)
+    return v
+
+
 def run(ctx):
     dts = core.rot([1, 0.5, 0.25, 0.1], ctx.seed)
     depth = 3 if ctx.tier == "quick" else 4
@@ -351,9 +364,13 @@ def run(ctx):
         per_dt["%s/warm-root" % dt] = {"states": res.states, "transitions": res.transitions, "levels": res.per_level}
         for sig, hist, detail in res.violations:
             ctx.violation("C11/warm-root/%s/dt=%r" % (sig, dt), {"dt": dt, "history": hist, "warm": True}, detail)
+    for n in (10, 500, 1200, 2500):
+        for delayed in (False, True):
+            for sig, detail in burst(n, delayed):
+                ctx.violation("C11/burst-%d%s/%s" % (n, "-delayed" if delayed else "", sig), {"burst": n, "delayed": delayed}, detail[:300])
     ctx.finish({
         "states": tot_s, "transitions": tot_t, "traces_validated_against_impl": tot_t,
-        "samples": samples, "depth": depth, "per_dt": per_dt,
+        "samples": samples, "depth": depth, "per_dt": per_dt, "bursts": [10, 500, 1200, 2500],
         "rule": "BFS over create/delete(live+dead)/reconfigure/send(receiver over all ids ever issued, delay menu)/send2/send of an event kind "
                 "without handler/step/step with a send or a deletion from inside act() from a 3-agent population, and again from the state after a first delivery, each reached history additionally flushed step by step until all events are past due; "
                 "reference due step = send tick + ceil(delay/dt) in exact rationals",
@@ -362,6 +379,8 @@ def run(ctx):
 
 
 def replay(case):
+    if "burst" in case:
+        return burst(case["burst"], case["delayed"]) or None
     system = get_system(case["dt"], bool(case.get("warm")))
     m, ref = system.new()
     for op in case["history"]:
